@@ -57,7 +57,7 @@ type docCase struct {
 	// large-header family: generated names / wrapped keys (lengths only, so that replay files stay small)
 	KeyNameLen    int `json:"key_name_len,omitempty"`            // > 0: KeyName is longName(len)
 	DecKeyNameLen int `json:"decryption_key_name_len,omitempty"` // > 0: DecryptionKeyName is longName(len)
-	WfkLen        int `json:"wrapped_key_len,omitempty"`         // > 32: WrapKeyFn returns that many bytes
+	WfkLen        int `json:"wrapped_key_len,omitempty"`         // > 32: WrapKeyFn returns that many bytes; -1: an EMPTY wrapped key (the matching UnwrapKeyFn returns the file key for it)
 	HdrLen        int `json:"expected_header_len,omitempty"`     // header length these options produce (0 = not computed)
 }
 
@@ -89,6 +89,9 @@ func (c docCase) dkn() string {
 
 // wrapFor is what the harness's WrapKeyFn returns: the masked key, padded to WfkLen bytes.
 func (c docCase) wrapFor(k []byte) []byte {
+	if c.WfkLen < 0 {
+		return []byte{}
+	}
 	w := wrapMask(k)
 	for i := len(w); i < c.WfkLen; i++ {
 		w = append(w, byte(i*13+5))
@@ -110,6 +113,9 @@ func headerLenOf(c docCase) int {
 	wl := 32
 	if c.WfkLen > 32 {
 		wl = c.WfkLen
+	}
+	if c.WfkLen < 0 {
+		wl = 0
 	}
 	m := struct {
 		K   string `json:"k,omitempty"`
@@ -212,6 +218,9 @@ func runDoc(c docCase) docObs {
 			UnwrapKeyFn: func(w []byte, alg, kn string, nonce, tag []byte) ([]byte, error) {
 				o.unwrapN++
 				o.unwrapAl, o.unwrapKN = alg, kn
+				if len(w) == 0 && c.WfkLen < 0 {
+					return append([]byte(nil), o.fk...), nil // the unwrap function that matches a WrapKeyFn with an empty wrapped key
+				}
 				return unwrapOf(w), nil
 			}})
 		if err != nil {
@@ -344,6 +353,13 @@ func genDocs(tier string, rng *lib.Rand, search bool) []docCase {
 		cases = append(cases, fit(c, t, false))
 		j++
 	}
+	for k := 0; k < 2; k++ { // a WrapKeyFn that returns an empty wrapped key
+		c := mk(j, []int{10, 70000}[k])
+		c.WfkLen = -1
+		c.HdrLen = headerLenOf(c)
+		cases = append(cases, c)
+		j++
+	}
 	{ // a wrapped key that alone exceeds the limit
 		c := mk(j, 10)
 		c.WfkLen = 50000
@@ -458,6 +474,26 @@ func checkDoc(res *lib.Result, drv *lib.Drv, real bool, c docCase, rng *lib.Rand
 		res.Hit("doc.encrypt=header-too-long")
 		checkOversized(res, drv, real, c, p)
 		return
+	}
+	if c.WfkLen < 0 {
+		// a WrapKeyFn that returns an empty wrapped key: Decrypt rejects such a manifest (Validate), so Encrypt
+		// must refuse too instead of emitting a document that cannot be decrypted
+		if o.encErr != nil && strings.Contains(o.encErr.Error(), "wrapped key is empty") {
+			res.Hit("doc.encrypt=empty-wrapped-key-refused")
+			if real && drv != nil {
+				if ans, err := drv.Ask(fmt.Sprintf("enc fk=%s np=%s wfk= kw=1 cph=1 keyname=%s plain=%s", encx.Hex(make([]byte, 32)), encx.Hex(make([]byte, 7)), encx.Hex([]byte("kn")), encx.Hex(p))); err == nil {
+					res.Traces++
+					if encx.KV(ans)["refuse"] != "emptyWrappedKey" {
+						res.Disagree("Encrypt(real) refuses an empty wrapped key = Kit.Enc.encryptImpl", c, summarize(ans), "Encrypt: the wrapped key is empty")
+					}
+				}
+			}
+			return
+		}
+		if o.encErr == nil && o.termErr == nil {
+			res.Violate("empty-wrapped-key-accepted-by-encrypt", fmt.Sprintf("WrapKeyFn returned an empty wrapped key; Encrypt produced a %d-byte document that Decrypt with the matching UnwrapKeyFn answers with: %v / %v", len(o.doc), o.decErr, o.decTerm), c)
+			return
+		}
 	}
 	if o.encErr != nil || o.termErr != nil {
 		res.Violate("encrypt-fails"+hc, fmt.Sprintf("Encrypt failed on valid options (header of %d bytes): %v / %v", hl, o.encErr, o.termErr), c)
